@@ -162,6 +162,36 @@ def make_cases(ctx):
         ("project-root-is-file", base, ["--project-root", "src/appu.py"], ["nesting"], ["."]),
         ("unknown-command", base, [], ["no-such-linter"], ["."]),
     ]
+    # malformed configuration values: a pattern that is no regular expression, wherever file-placement accepts one and however the
+    # configuration reaches it; a threshold outside its domain, in the section or in a per-language block
+    bad_re = "[invalid(regex"
+    deny = [{"pattern": bad_re, "reason": "x"}]
+    fp_positions = {
+        "first-rule-allow": {"directories": {"src": {"allow": [bad_re]}}},
+        "deny-only-rule": {"directories": {"src": {"deny": deny}}},
+        "deny-of-later-rule": {"directories": {"src": {"allow": [".*"]}, "lib": {"deny": deny}}},
+        "allow-after-deny-only-rule": {"directories": {"src": {"deny": [{"pattern": "zzz", "reason": "x"}]}, "lib": {"allow": [bad_re]}}},
+        "deny-after-deny-only-rule": {"directories": {"tools": {"deny": [{"pattern": "zzz", "reason": "x"}]}, "src": {"deny": deny}}},
+        "global-patterns-deny-only": {"global_patterns": {"deny": deny}},
+        "global-patterns-deny-after-rules": {"directories": {"src": {"deny": [{"pattern": "zzz", "reason": "x"}]}}, "global_patterns": {"deny": deny}},
+        "global-patterns-allow": {"global_patterns": {"allow": [bad_re]}},
+        "global-deny": {"global_deny": deny},
+        "global-deny-after-deny-only-rule": {"directories": {"src": {"deny": [{"pattern": "zzz", "reason": "x"}]}}, "global_deny": deny},
+        "rule-for-absent-directory": {"directories": {"nowhere": {"deny": deny}}},
+    }
+    noyaml = {k: v for k, v in base.items() if k != ".thailint.yaml"}
+    for pos, cfg in sorted(fp_positions.items()):
+        doc = json.dumps({"file-placement": cfg})
+        usage.append(("invalid-regex:%s:project-config" % pos, dict(noyaml, **{".thailint.json": doc}), [], ["file-placement"], ["."]))
+        usage.append(("invalid-regex:%s:explicit-config" % pos, dict(base, **{"fp.json": doc}), [], ["file-placement", "--config", "fp.json"], ["."]))
+        # (no project-level file-placement section beside --rules: which of the two wins is outside this property)
+        usage.append(("invalid-regex:%s:rules-option" % pos, noyaml, [], ["file-placement", "--rules", json.dumps(cfg)], ["."]))
+    for cmd, sec, key, val in [("nesting", "nesting", "max_nesting_depth", 0), ("nesting", "nesting", "max_nesting_depth", -3), ("srp", "srp", "max_methods", 0),
+                               ("srp", "srp", "max_loc", -1), ("dry", "dry", "min_duplicate_lines", 0), ("stringly-typed", "stringly-typed", "min_occurrences", 0),
+                               ("pipeline", "collection-pipeline", "min_continues", 0)]:
+        usage.append(("out-of-domain:%s.%s=%s" % (sec, key, val), dict(noyaml, **{".thailint.yaml": "%s:\n  enabled: true\n  %s: %s\n" % (sec, key, val)}), [], [cmd], ["."]))
+        if cmd in ("nesting", "srp"):
+            usage.append(("out-of-domain:%s.python.%s=%s" % (sec, key, val), dict(noyaml, **{".thailint.yaml": "%s:\n  python:\n    %s: %s\n" % (sec, key, val)}), [], [cmd], ["."]))
     for name, files, pre, argv, targets in usage:
         cases.append({"kind": "usage", "files": files, "pre": pre, "argv": argv, "targets": targets, "id": "usage:" + name})
     return cases
